@@ -52,7 +52,11 @@ BasePts ==
 
 BaseEmpty == MkMesh("triangle", <<>>, <<>>, <<>>)
 
-Bases == {BaseQuad, BaseTris, BasePts, BaseEmpty}
+\* material ranges that account for fewer primitives than the mesh has (what a.SetMaterial(x).Append(b)
+\* produces when b carries no material): exporters have to cope without touching the shared list
+BaseUnder == [BaseTris EXCEPT !.mats = <<[n |-> 1, m |-> 2]>>]
+
+Bases == {BaseQuad, BaseTris, BasePts, BaseEmpty, BaseUnder}
 
 Live == {s \in Slots : IsMesh(pool[s])}
 Z == [z |-> 0]
